@@ -461,6 +461,17 @@ theorem prune_perm {p p' : Proj} (e : SameProj p p') :
   refine ⟨fun k => ?_, fun k => ?_, fun k => ?_, fun k => ?_⟩ <;>
     simp only [withoutUnnecessaryResources, lookup_pick, mem, e1, e2, e3, e4]
 
+/-- the *keys* of the map built by `dependentsForService` (the `Name`s of the services depending on `s.Name`) do not
+depend on the iteration order, for any project — even one with colliding `Name`s, where the value kept under a
+colliding name does (`Neg.walk_not_perm_invariant_with_colliding_names`) -/
+theorem dependents_keys_perm {svcs svcs' : AL Svc} (e : svcs.Perm svcs') (s : Svc) (y : String) :
+    y ∈ keys (dependents svcs s) ↔ y ∈ keys (dependents svcs' s) := by
+  rw [mem_keys_dependents_names, mem_keys_dependents_names]
+  exact ⟨fun ⟨kv, hm, h⟩ => ⟨kv, e.mem_iff.1 hm, h⟩, fun ⟨kv, hm, h⟩ => ⟨kv, e.mem_iff.2 hm, h⟩⟩
+
+/-- without `NamesOK` the walk itself is order dependent (witness in `Neg/C15.lean`): the hypothesis is needed -/
+theorem walk_perm_needs_names : ¬Neg.WalkPermInvariant := Neg.walk_not_perm_invariant_with_colliding_names
+
 /-- `WithSelectedServices` (after the `fix:` commit) is a function of the project, the names and the policy:
 whatever the iteration order of the service map, both halves of the result are the same maps.
 (Before the fix only the enabled half was: `Neg/C15.lean`.) -/
